@@ -66,6 +66,13 @@ func mergeOf[T number](m string) func(v, d T) T {
 		return func(v, d T) T { return 2*v + d }
 	case "replace":
 		return func(v, d T) T { return d }
+	case "sat":
+		return func(v, d T) T {
+			if v+d > 8 {
+				return 8
+			}
+			return v + d
+		}
 	}
 	return nil // "add" is the library's default
 }
@@ -129,6 +136,13 @@ func MakeColumn(d ColDesc) column.Column {
 			return column.ForRecord(func() *Rec { return new(Rec) }, column.WithMerge(func(v, x *Rec) *Rec { v.V += x.V; return v }))
 		case "affine":
 			return column.ForRecord(func() *Rec { return new(Rec) }, column.WithMerge(func(v, x *Rec) *Rec { v.V = 2*v.V + x.V; return v }))
+		case "sat":
+			return column.ForRecord(func() *Rec { return new(Rec) }, column.WithMerge(func(v, x *Rec) *Rec {
+				if v.V += x.V; v.V > 8 {
+					v.V = 8
+				}
+				return v
+			}))
 		}
 		return column.ForRecord(func() *Rec { return new(Rec) })
 	case "recordvar":
